@@ -102,8 +102,8 @@ def rgate(rng, model, N, kinds=('gen', 'fwd', 'bwd', 'both', 'named')):
         return [qs, [0, g]]
     m = rmap(rng, model, k)
     if kind == 'fwd':
-        return [qs, [1, Some(m), None]]
+        return [qs, [1, m, None]]
     if kind == 'bwd':
-        return [qs, [1, None, Some(m)]]
+        return [qs, [1, None, m]]
     inv = model.call('inverse', m)
-    return [qs, [1, Some(m), Some(inv)]]
+    return [qs, [1, m, inv]]
